@@ -118,7 +118,11 @@ def impl_via_validate_data(case, cfg=None, with_tracklets=False):
         npm["trk"] = geff_spec.PropMetadata(identifier="trk", dtype="int64")
         props["trk"] = {"values": np.asarray(tracklet_partition(case["nodes"], [tuple(e) for e in case["edges"]]), dtype=np.int64),
                         "missing": None}
-        tnp["tracklet"] = "trk"
+        # the key ORDER of track_node_props varies too (dict order survives pydantic and zarr)
+        if (len(case["nodes"]) + len(case["edges"])) % 2:
+            tnp = {"tracklet": "trk", "lineage": "lin"}
+        else:
+            tnp["tracklet"] = "trk"
     md = geff_spec.GeffMetadata(
         geff_version="1.0.0", directed=True, node_props_metadata=npm, edge_props_metadata={}, track_node_props=tnp,
     )
@@ -189,8 +193,9 @@ def masked_geff(v):
     tm = np.asarray(v["trk_missing"], dtype=bool) if v["trk_missing"] is not None else None
     props = {"lin": {"values": np.asarray(c["labels"], dtype=np.int64), "missing": lm},
              "trk": {"values": np.asarray(v["trk"], dtype=np.int64), "missing": tm}}
+    tnp = {"lineage": "lin", "tracklet": "trk"} if (len(c["nodes"]) + len(c["edges"])) % 2 else {"tracklet": "trk", "lineage": "lin"}
     md = geff_spec.GeffMetadata(geff_version="1.0.0", directed=True, node_props_metadata=npm,
-                                edge_props_metadata={}, track_node_props={"lineage": "lin", "tracklet": "trk"})
+                                edge_props_metadata={}, track_node_props=tnp)
     return {"metadata": md, "node_ids": nodes, "edge_ids": np.asarray(c["edges"], dtype=np.int64).reshape(-1, 2),
             "node_props": props, "edge_props": {}}
 
